@@ -20,6 +20,7 @@ import (
 	"maps"
 	"math"
 	"net"
+	"reflect"
 	"slices"
 	"strings"
 	"time"
@@ -623,6 +624,13 @@ func (c *IPAMController) onBlockUpdated(kvp model.KVPair) {
 				existing.sequenceNumber = alloc.sequenceNumber
 				existing.attrs = alloc.attrs
 				existing.markValid()
+			} else if !reflect.DeepEqual(existing.attrs, alloc.attrs) {
+				// The owner attributes were rewritten in place, which doesn't change the sequence
+				// number (for example, when a KubeVirt VM restarts or migrates).  Replace our record
+				// so that it, and the per-node index, reflect the new owner.
+				c.releaseAllocation(existing)
+				c.assignAllocation(blockCIDR, &alloc)
+				log.WithFields(alloc.fields()).Debug("IP allocation owner attributes changed")
 			}
 			continue
 		}
